@@ -56,6 +56,12 @@ def one_case(ctx: Ctx, stream: str, i: int, max_nside: int) -> None:
     nside = rng.choice([n for n in (1, 2, 4, 8, 16) if n <= max_nside])
     kind = rng.choice(['I', 'QU', 'IQU', 'IQUV'])
     ndet, ndir, nsamp = rng.randint(1, 4), rng.choice([1, 1, 2, 3]), rng.randint(2, 12)
+    if rng.random() < 0.35:
+        # coinciding sizes: as many samples as detectors (a square time-ordered array), as many directions as detectors
+        # or as samples — an array of per-sample angles must never be mistaken for per-detector ones
+        ndet = rng.randint(2, 4)
+        nsamp = ndet
+        ndir = rng.choice([1, 1, ndet])
     npix = 12 * nside * nside
     dt = np.float64 if x64 else np.float32
     land = HealpixLandscape(nside, kind, dt)
